@@ -482,7 +482,7 @@ def design_check_bf(rep, tier):
 
 
 def c04(tier):
-    per = {"E": 6000, "rnd": 1200, "S": 1200, "T": 300, "R": 300, "M": 600} if tier == "quick" else \
+    per = {"E": 40000, "rnd": 1200, "S": 1200, "T": 300, "R": 300, "M": 600} if tier == "quick" else \
           {"E": 300000, "rnd": 20000, "S": 20000, "T": 3000, "R": 400, "M": 8000, "N": 2000}
     return run_equivalence("C04", tier, lambda c: [{"backend": "inplace", "level": 0}],
                            ["E", "rnd", "S", "T", "R", "M", "N"], per,
